@@ -74,7 +74,9 @@ def gen_spec(rng, small=False):
             'nt': nt, 'tau0': tau0, 'dtau': float(rng.choice([1, 24, 744])),
             'seed': int(rng.integers(1 << 30)),
             'modelname': 'GEOS5_47L', 'modelres': [5.0, 4.0],
-            'halfpolar': 1, 'center180': 1,
+            # (regional / nested grids have no half-size polar boxes)
+            'halfpolar': int(rng.choice([1, 1, 0])),
+            'center180': int(rng.choice([1, 1, 0])),
             'toptitle': 'GEOS-CHEM binary punch file v. 2.0'}
 
 
